@@ -30,7 +30,7 @@ func init() {
 		Real:       append(append([]string{}, realAll...), "db/fs (compiled against the simulated os)", "db/postgres"),
 		Stub:       append(append([]string{}, stubAll...), "reference model refvm (oracle)", "OS filesystem (simfs)", "Postgres server (pgfake)"),
 		HangIsViolation: true, // the property promises that requests are served
-		FaultKinds: []string{"template_lookup_error", "client_write_error", "restart", "ext_terminate", "ext_error", "ext_flags", "client_garbage"},
+		FaultKinds: []string{"store_read_error", "template_lookup_error", "client_write_error", "restart", "ext_terminate", "ext_error", "ext_flags", "client_garbage"},
 	})
 }
 
@@ -106,6 +106,7 @@ func runC20(c *core.Ctx) *core.Outcome {
 		tplFault := t.Chance(1, 8)
 		wrFault := t.Chance(1, 8)
 		emptyIn := t.Chance(1, 3)
+		loadFault := !cfg.KeepPersister && t.Chance(1, 10)
 		t.End()
 		wasEnded, wasBlocked := r.m.Ended, r.m.Blocked
 		if cfg.ResetOnEmpty && i > 0 {
@@ -128,6 +129,26 @@ func runC20(c *core.Ctx) *core.Outcome {
 				return finishModel(o, c, r).Fail("still-blocked-after-flag-cleared", i, nil, "request %d input %s arrived after client code had cleared TERMINATE in the stored session (through a store handle and persister of its own): cont=%v, no output, no code fetch, no external call - the session is still blocked", i, short(string(in)), st.Cont)
 			}
 			break
+		}
+		if loadFault {
+			// the store fails the read of the session record (a connection reset, an EIO): whatever this request
+			// answers, the session is not lost over it - the model is not advanced and the requests that follow
+			// are judged as if this one had never been sent (a blocked session is still blocked)
+			before := r.s.LoadFailed
+			r.s.FailLoadThisRequest = true
+			st := r.s.Request(in, true)
+			o.Counts["requests"]++
+			if r.s.LoadFailed > before {
+				o.Faults["store_read_error"]++
+				if wasBlocked {
+					o.Probes["store_read_error_on_blocked_session"]++
+				}
+			}
+			if st.Panic != "" {
+				o.Probes["foreign_panic"]++
+				break
+			}
+			continue
 		}
 		if wrFault && !wasBlocked && !tplFault {
 			// ... or it is rendered and cannot be written: the client has hung up
